@@ -519,7 +519,11 @@ func (in *Instance) Judge(res *sched.Result, o *Obs) []Violation {
 			rc := res.Deadlock.Recursive[0]
 			sig = "deadlock|recursive-read-lock|" + funcOfSite(rc[0]) + "|" + funcOfSite(rc[1])
 		} else {
-			sites := funcsOf(res.Deadlock.Sites)
+			src := res.Deadlock.Cycle
+			if len(src) == 0 {
+				src = res.Deadlock.Sites
+			}
+			sites := funcsOf(src)
 			sort.Strings(sites)
 			sig = "deadlock|" + strings.Join(sites, "|")
 		}
